@@ -213,6 +213,9 @@ def role_slots(role, name):
         'copy': [('target', 'cp/' + name), ('prereq', 'S/cp/' + name)],
         'find': [('dirdep', 'S/fd/' + name), ('prereq', 'S/fd/' + name + '/a.in'),
                  ('target', 'found/fd/' + name + '/a.in'), ('orderonly', 'found/fd/' + name)],
+        # the walked directory only as a prerequisite: outputs are plainly named (so names that
+        # are impossible as a Make *target*, e.g. with %, are still demanded here)
+        'findsrc': [('dirdep', 'S/fd/' + name), ('prereq', 'S/fd/' + name + '/a.in')],
     }[role]
 
 
@@ -220,7 +223,7 @@ def make_witness(name, scratch, env):
     """-> {role: {slot path: encoding or None}}"""
     res = {}
     cache = {}
-    for role in ROLES + ['find']:
+    for role in ROLES + ['find', 'findsrc']:
         res[role] = {}
         for kind, path in role_slots(role, name):
             if (kind, path) not in cache:
@@ -234,7 +237,7 @@ def feasible(backend, role, name, wit):
         # the manifest language can escape everything in a path except `|` (manual: $$, $space, $:)
         if '|' in name:
             return False
-        if role == 'find':
+        if role in ('find', 'findsrc'):
             # the depfile bfg9000 writes is read through refninja's deliberately partial depfile
             # dialect (Appendix A): only names needing no backslash except before space / #
             return not any(c in name for c in '?*[]%:|\t\\') and not name.startswith('~')
@@ -352,10 +355,15 @@ def run_roles(root, backend, name, roles):
     return res
 
 
-def run_find(root, backend, name):
-    """directory walked by find_files: found files are built, adding a file re-generates"""
+def run_find(root, backend, name, consume=False):
+    """directory walked by find_files: found files are built, adding a file re-generates.
+    consume=True: the found files are the inputs of one plainly named step instead of being
+    copied to paths that repeat the name"""
     files = {'fd/' + name + '/a.in': 'a\n'}
     script = "default(*copy_files(find_files(%r), directory='found'))\n" % ('fd/' + name + '/*.in')
+    if consume:
+        script = ("default(build_step('fs_out.txt', cmd=['gen', build_step.output, '--', "
+                  "build_step.input], files=find_files(%r)))\n" % ('fd/' + name + '/*.in'))
     try:
         pr = proj.Proj(root, backend, files, script)
     except OSError:
@@ -364,7 +372,7 @@ def run_find(root, backend, name):
     if r0.rc != 0:
         return 'configure fails: ' + (r0.err.strip().splitlines()[-1][:200] if r0.err.strip() else '')
     rc, out, recs = pr.run([], timeout=30)
-    exp = os.path.join('found', 'fd', name, 'a.in')
+    exp = 'fs_out.txt' if consume else os.path.join('found', 'fd', name, 'a.in')
     if rc != 0 or not os.path.exists(os.path.join(pr.bld, exp)):
         return 'build fails or %r not created: %s' % (exp, out[-200:])
     rc, out, recs = pr.run([])
@@ -378,6 +386,14 @@ def run_find(root, backend, name):
     exp2 = os.path.join('found', 'fd', name, 'b.in')
     if rc != 0:
         return 'build after adding a file fails: %s' % out[-250:]
+    if consume:
+        used = [a for r in recs if r['tool'] == 'gen' for a in r['argv']]
+        if not any(a.endswith('/b.in') for a in used):
+            return 'a file added to the walked directory is not noticed (no regeneration / step not re-run): %s' % out[-150:]
+        rc, out, recs = pr.run([])
+        if rc != 0 or recs or 'regenerat' in out:
+            return 'build after the regeneration is not a no-op: %s' % out[-200:]
+        return None
     if not os.path.exists(os.path.join(pr.bld, exp2)):
         return 'a file added to the walked directory is not noticed (no regeneration): %s' % out[-150:]
     return None
@@ -414,6 +430,11 @@ def _shard(arg):
                 n += 1
             else:
                 excluded.append('find')
+            if feasible(backend, 'findsrc', name, wit):
+                results['findsrc'] = run_find(os.path.join(root, 'p'), backend, name, consume=True)
+                n += 1
+            else:
+                excluded.append('findsrc')
         out.append((name, wit, results, excluded, n))
     shutil.rmtree(root, ignore_errors=True)
     return backend, out
@@ -475,7 +496,7 @@ def run(ctx):
              'a hand-written reference Makefile (search over raw/backslash encodings per special character, run by the '
              'real make) can express the name in every slot the role uses; for Ninja when the name has no `|`. '
              'distinct = names' % (len(nl), '; all pairs of special characters xc1c2y' if ctx.thorough else '',
-                                   ROLES + ['find']),
+                                   ROLES + ['find', 'findsrc']),
         samples=samples or [dict(name=nl[0])],
         exhaustive=True, demanded=demanded, excluded_infeasible=excluded,
         excluded_names={k: ''.join(sorted(set(''.join(c for c in n if not c.isalnum()) for n in v)))[:80]
@@ -492,8 +513,8 @@ def replay(rec):
     root = os.path.join(core.worker_dir(), 'c04r')
     shutil.rmtree(root, ignore_errors=True)
     os.makedirs(root)
-    if c['role'] == 'find':
-        v = run_find(os.path.join(root, 'p'), c['backend'], c['name'])
+    if c['role'] in ('find', 'findsrc'):
+        v = run_find(os.path.join(root, 'p'), c['backend'], c['name'], consume=c['role'] == 'findsrc')
     else:
         v = run_roles(os.path.join(root, 'p'), c['backend'], c['name'], [c['role']])[c['role']]
     print(c, '->', v)
